@@ -18,6 +18,11 @@ Proof. exact h1_pairing. Qed.
 Theorem C03_sort_perm : forall hs, Permutation (har_sort hs) hs /\ nv_sorted (har_sort hs) = true.
 Proof. exact sort_sorted_perm. Qed.
 
+(* sort.Slice is unstable, yet its result is determined: any sorted permutation of the input is the
+   list the model's insertion sort computes *)
+Theorem C03_sort_unique : forall hs out, Permutation out hs -> nv_sorted out = true -> out = har_sort hs.
+Proof. exact go_sort_is_har_sort. Qed.
+
 (* the merged header / cookie maps of the entry: every name maps to all of its values, in order,
    joined with ","; no other name is present *)
 Theorem C03_merge_exact : forall hs k,
